@@ -260,6 +260,56 @@ def pair_designs(rng, count, widths=(1, 2, 3)):
     return out
 
 
+def multiclock(rng):
+    """a structural top with two clock domains: the system clock and a divided clock generated inside the top, which drives a
+    sub-block (ClockDriver on the sub-block).  Both domains hold registers / counters / delay lines of the same shapes."""
+    import py4hw
+    from py4hw.logic.clock import ClockDivider
+    hw = py4hw.HWSystem()
+    w = rng.choice([2, 3, 4, 8])
+
+    class Dom(py4hw.Logic):
+        def __init__(self, parent, name, a, e, q, kinds):
+            super().__init__(parent, name)
+            self.addIn('a', a)
+            self.addIn('e', e)
+            self.addOut('q', q)
+            prev = a
+            for k, kind in enumerate(kinds):
+                nxt = q if k == len(kinds) - 1 else self.wire('m%d' % k, w)
+                if kind == 'Reg':
+                    py4hw.Reg(self, 'u%d' % k, prev, nxt)
+                elif kind == 'RegE':
+                    py4hw.Reg(self, 'u%d' % k, prev, nxt, enable=e)
+                elif kind == 'Delay':
+                    py4hw.DelayLine(self, 'u%d' % k, prev, e, None, nxt, 2)
+                elif kind == 'Not':
+                    py4hw.Not(self, 'u%d' % k, prev, nxt)
+                prev = nxt
+
+    class Top(py4hw.Logic):
+        def __init__(self, parent, name, a, e, x, y):
+            super().__init__(parent, name)
+            self.addIn('a', a)
+            self.addIn('e', e)
+            self.addOut('x', x)
+            self.addOut('y', y)
+            kinds = [rng.choice(['Reg', 'RegE', 'Delay', 'Not']) for _ in range(rng.randint(1, 3))]
+            if not any(k != 'Not' for k in kinds):
+                kinds.append('Reg')
+            slow = self.wire('slow')
+            ClockDivider(self, 'div', 50E6, rng.choice([12.5E6, 6.25E6]), slow)
+            fast = Dom(self, 'fast', a, e, x, kinds)
+            slowdom = Dom(self, 'slowdom', a, e, y, kinds if rng.random() < 0.7 else list(reversed(kinds)))
+            slowdom.clockDriver = py4hw.ClockDriver(rng.choice(['slow_clk', 'clk2']), 12.5E6, wire=slow)
+    a, e, x, y = hw.wire('a', w), hw.wire('e'), hw.wire('x', w), hw.wire('y', w)
+    top = Top(hw, 'top', a, e, x, y)
+    pin = [(p.name, p.wire) for p in top.inPorts]
+    pout = [(p.name, p.wire) for p in top.outPorts]
+    return {'name': 'two clock domains (w=%d)' % w, 'hw': hw, 'top': top, 'ins': pin, 'outs': pout, 'seq': True, 'kind': 'multiclock',
+            'clocks': ['clk', 'slow_clk', 'clk2']}
+
+
 def emit(top, whole=True):
     import py4hw
     with quiet():
